@@ -45,6 +45,7 @@ type Solver struct {
 	log    io.Writer
 	sawErr bool
 	dead   bool
+	hardMs int // a query still running after this long is abandoned (the solver process is killed)
 }
 
 func solverArgv(kind string, timeoutMs int) []string {
@@ -76,7 +77,7 @@ func NewSolver(kind string, timeoutMs int, logPath string) (*Solver, error) {
 	if err := cmd.Start(); err != nil {
 		return nil, err
 	}
-	s := &Solver{kind: kind, cmd: cmd, in: in, out: bufio.NewReaderSize(outp, 1<<16)}
+	s := &Solver{kind: kind, cmd: cmd, in: in, out: bufio.NewReaderSize(outp, 1<<16), hardMs: 3*timeoutMs + 5000}
 	if logPath != "" {
 		f, err := os.Create(logPath)
 		if err == nil {
@@ -244,8 +245,35 @@ func (s *Solver) CheckSat() SatResult {
 	start := time.Now()
 	s.send("(check-sat)")
 	res := Unknown
+	type lineRes struct {
+		line string
+		err  error
+	}
+	deadline := time.After(time.Duration(s.hardMs) * time.Millisecond)
 	for {
-		line, err := s.readLine()
+		if s.dead {
+			break
+		}
+		ch := make(chan lineRes, 1)
+		go func() {
+			l, e := s.readLine()
+			ch <- lineRes{l, e}
+		}()
+		var line string
+		var err error
+		select {
+		case x := <-ch:
+			line, err = x.line, x.err
+		case <-deadline:
+			// the solver ignored its own per-query limit: give the query up
+			fmt.Fprintf(os.Stderr, "solver: query exceeded %d ms, abandoned\n", s.hardMs)
+			s.cmd.Process.Kill()
+			go s.cmd.Wait()
+			s.dead = true
+			s.sawErr = true
+			<-ch
+			continue
+		}
 		if err != nil {
 			s.Stats.Errors++
 			s.sawErr = true
